@@ -843,3 +843,48 @@ func ruleC15Thresholds(r *Run, p *Program, rule string) {
 	}
 	r.universe(rule, n, 2)
 }
+
+// onlyUnderAny: every static call chain into f starts below one of the functions in roots (closures count as their parent; bound 4).
+func onlyUnderAny(p *Program, f *ssa.Function, roots map[string]bool, d int) bool {
+	for f.Parent() != nil {
+		f = f.Parent()
+	}
+	if roots[funcKey(f)] {
+		return true
+	}
+	if d > 4 {
+		return false
+	}
+	cs := staticCallersOf(p, f)
+	if len(cs) == 0 {
+		return false
+	}
+	for _, c := range cs {
+		if !onlyUnderAny(p, c, roots, d+1) {
+			return false
+		}
+	}
+	return true
+}
+
+// ruleSealSites: sealing a segment makes the next write open a new segment file, so where segments are sealed bounds
+// how many files a workload creates. The reviewed seal sites are: the current segment when a record does not fit
+// (writeRecord), the segments picked for compaction (Compact/compact), and every segment but the newest after a
+// replay (recover). A segment sealed anywhere else - e.g. on every Open - leaves a short, never-compacted segment
+// behind each time.
+func ruleSealSites(r *Run, p *Program, rule string) {
+	roots := map[string]bool{"(*pogreb.datalog).writeRecord": true, "(*pogreb.DB).Compact": true, "(*pogreb.DB).compact": true, "(*pogreb.DB).recover": true}
+	n := 0
+	for _, st := range storesToField(p, "pogreb.segmentMeta.Full") {
+		if bv, isc := constBool(st.Val); isc && !bv {
+			continue
+		}
+		n++
+		f := st.Parent()
+		r.fn(funcKey(f))
+		r.check(onlyUnderAny(p, f, roots, 0), rule, funcKey(f)+":seals", p.Pos(st.Pos()),
+			"segments are marked full only below writeRecord (record does not fit), Compact/compact (picked segments) and recover (all but the newest after replay)",
+			"a segment is marked full in "+funcKey(f)+", which is reachable outside the reviewed seal sites (writeRecord, Compact, compact, recover): every such seal makes the next write create a new segment file; sealing on a path taken routinely (Open, Sync, Close) leaves one short segment, with its side file, descriptor and mapping, behind each time and they are too small to be picked for compaction")
+	}
+	r.universe(rule, n, 1)
+}
